@@ -196,7 +196,7 @@ PROPS = {
         "nt_rule": "any",
         "level": "other", "module": "Resolvo.Props.C04", "imports": ["Resolvo.RenderProofs"],
         "theorems": ["Resolvo.C04.message_rendering_terminates", "Resolvo.C04.message_lines_bounded", "Resolvo.Render.stepOp_decreases", "Resolvo.Render.runLoop_terminates", "Resolvo.C04.oracle_total"],
-        "families": [("solve", SOLVE_Q), ("soft", SOFT_Q), ("conflictfree", CF_Q), ("hints", HINTS_Q)],
+        "families": [("solve", SOLVE_Q), ("soft", SOFT_Q), ("conflictfree", CF_Q), ("hints", HINTS_Q), ("cancel-async", {"quick": 6000, "thorough": 100000})],
         "profiles": ["debug", "release"],
         "explanation": "PROVED (conflict rendering, every conflict graph): Render.lean models Conflict::graph with petgraph's index / iteration order, simplify, get_installable_set, get_missing_set and DisplayUnsat; the rendering loop of the model terminates on every graph, cyclic or not (message_rendering_terminates: a potential function decreases with every iteration - an unreported solvable pays for its expansion, stack entries for themselves) and writes a number of lines polynomial in the size of the graph (message_lines_bounded). TIE: the model's message equals the real user-friendly message byte for byte on every generated conflict (tag mdet-message; box-drawing indentation, merged candidates, installable-first ordering included); size oracles on the real message and graphviz output (linear in nodes + edges). CHECKED PER RUN: every case runs under catch_unwind (solve, Conflict::graph, graphviz, display_user_friendly separately), a per-case watchdog (hang = failure) and an address-space limit (runaway output = failure), in debug-assertion and release builds. PROVED: only the totality/correctness of the oracles. NOT PROVED: termination and panic-freedom of the search for all inputs.",
         "assumptions": ["well-formed providers only (WF checked by the driver)"],
@@ -218,8 +218,8 @@ PROPS = {
     },
     "C07": {
         "nt_rule": "preferred",
-        "level": "proof", "module": "Resolvo.Props.C07", "imports": ["Resolvo.MDet.CheckedProofs", "Resolvo.Abs.Preferred"],
-        "theorems": ["Resolvo.C07.preferred_exact_accepted", "Resolvo.C07.preferred_exact_checked", "Resolvo.C07.never_tries_anything_else",
+        "level": "proof", "module": "Resolvo.Props.C07", "imports": ["Resolvo.MDet.CheckedProofs", "Resolvo.Abs.Preferred", "Resolvo.MDet.EncSound"],
+        "theorems": ["Resolvo.C07.clause_order_exact_model", "Resolvo.MDet.requires_clause_order", "Resolvo.C07.preferred_exact_accepted", "Resolvo.C07.preferred_exact_checked", "Resolvo.C07.never_tries_anything_else",
                      "Resolvo.Abs.accepted_all_agree", "Resolvo.Abs.decision_agrees", "Resolvo.Abs.go_subset_sel",
                      "Resolvo.C07.firstChoice_favored", "Resolvo.C07.firstChoice_ranked", "Resolvo.C07.union_order"],
         "families": [("conflictfree", CF_Q), ("async-cf", {"quick": 6000, "thorough": 100000}), ("solve", SOLVE_Q)],
